@@ -277,6 +277,8 @@ class Sym:
             return Lin.of_term(("const", repr(e.value)))
         if isinstance(e, ast.Await):
             return self.lin(e.value)
+        if isinstance(e, ast.NamedExpr):
+            return self.lin(e.value)
         return Lin.of_term(("expr", norm(e)))
 
     def _unpack(self, e: ast.Call) -> Optional[Lin]:
